@@ -127,11 +127,16 @@ let parse_cdps body =
       | _ -> failwith "cdp")
     (split_ws body)
 
+(* the tags of the stave-level frame messages (which lanes, which sub-checks) are printed by the `linkt` stream only: the
+   implementation omits that text when errors are muted, which is how the other streams run it *)
+let show_frame_tags = ref false
 let fmt_msg = function
   | VErr e ->
-      Printf.sprintf "E:%X:%d:%s:%s" (int_of_n e.e_off) (int_of_n e.e_code)
+      let c = int_of_n e.e_code in
+      Printf.sprintf "E:%X:%d:%s:%s" (int_of_n e.e_off) c
         (match e.e_word with Some w -> hex_of_bytes w | None -> "-")
-        (String.concat "," (List.map (fun t -> string_of_int (int_of_n t)) e.e_tags))
+        (if c >= 72 && c <= 75 && not !show_frame_tags then ""
+         else String.concat "," (List.map (fun t -> string_of_int (int_of_n t)) e.e_tags))
   | VStats f -> "A:" ^ String.concat "," (List.map (fun x -> string_of_int (int_of_n x)) (rflags_list f))
 
 let fmt_msgs l = if l = [] then "-" else String.concat " " (List.map fmt_msg l)
@@ -444,6 +449,7 @@ let () =
     | "words" -> (fun l -> words_case (split_ws l))
     | "fsm" -> (fun l -> fsm_case (split_ws l))
     | "link" -> link_line
+    | "linkt" -> (show_frame_tags := true; link_line)
     | "dispatch" -> dispatch_line
     | "prep" -> prep_line
     | "scan" -> scan_with `Impl
